@@ -2295,6 +2295,11 @@ mod fields_ext {
         ) -> syn::Result<
             Either<punctuated::Iter<'t, syn::Type>, iter::Once<&'t syn::Type>>,
         > {
+            // A type passed through a `macro_rules!` `$t:ty` fragment arrives in an invisible group.
+            let mut ty = ty;
+            while let syn::Type::Group(group) = ty {
+                ty = &group.elem;
+            }
             match ty {
                 syn::Type::Tuple(syn::TypeTuple { elems, .. }) if self.len() > 1 => {
                     match self.len().cmp(&elems.len()) {
